@@ -31,6 +31,54 @@ def som(t):
         return t
 
 
+def _monomials(t):
+    """sum-of-monomials view of an Int term: [(coeff, [factors])] or None."""
+    if z3.is_add(t):
+        out = []
+        for c in t.children():
+            m = _monomials(c)
+            if m is None:
+                return None
+            out.extend(m)
+        return out
+    if z3.is_int_value(t):
+        return [(t.as_long(), [])]
+    if z3.is_mul(t):
+        coeff, fs = 1, []
+        for c in t.children():
+            if z3.is_int_value(c):
+                coeff *= c.as_long()
+            elif z3.is_mul(c) or z3.is_add(c):
+                return None
+            else:
+                fs.append(c)
+        return [(coeff, fs)]
+    if z3.is_app_of(t, z3.Z3_OP_UMINUS):
+        m = _monomials(t.arg(0))
+        return None if m is None else [(-c, f) for c, f in m]
+    return [(1, [t])]
+
+
+def factor_out(x, y):
+    """If every monomial of x contains the atom y, return x / y as a term, else None."""
+    if z3.is_int_value(y) or z3.is_add(y) or z3.is_mul(y):
+        return None
+    ms = _monomials(x)
+    if not ms:
+        return None
+    total = None
+    for coeff, fs in ms:
+        idx = next((i for i, f in enumerate(fs) if f.eq(y)), None)
+        if idx is None:
+            return None
+        rest = fs[:idx] + fs[idx + 1:]
+        term = z3.IntVal(coeff)
+        for f in rest:
+            term = term * f
+        total = term if total is None else total + term
+    return som(total)
+
+
 def simp(t):
     try:
         return z3.simplify(t)
@@ -191,6 +239,8 @@ def _mul_axioms():
                   patterns=[z3.MultiPattern(MUL(n, a), MUL(n, b))]),
         z3.ForAll([n, a], z3.And(z3.Implies(z3.And(n >= 0, a >= 0), MUL(n, a) >= 0),
                                  z3.Implies(a == 0, MUL(n, a) == 0), z3.Implies(a == 1, MUL(n, a) == n),
+                                 z3.Implies(z3.And(n >= 0, a >= 1), MUL(n, a) >= n),
+                                 z3.Implies(z3.And(n >= 0, a <= -1), MUL(n, a) <= -n),
                                  ), patterns=[MUL(n, a)]),
     ]
 
@@ -313,55 +363,61 @@ def _stage_abstract(premises, goal, timeout_ms, ground=False):
 def check_valid(premises, goal, timeout_ms=10000, want_model=True, use_cvc5=True, hints=True, stages=None):
     """Is (/\\ premises) => goal valid?  proved / refuted(+model) / unknown.
 
-    Portfolio: (1) products abstracted to an uninterpreted mul with monotonicity axioms (a proof there is a
-    proof for real multiplication), (2) native non-linear arithmetic (also the only source of counter-models),
-    (3) native with ground product hints, (4) cvc5."""
+    Portfolio, run in two rounds (short budget first, then the full one):
+      (1) products abstracted to an uninterpreted mul with monotonicity axioms, ground re-association /
+          distribution hints and premise instances at the goal's skolem constants (a proof there is a proof for
+          real multiplication), (2) the same without the ground hints, (3) native non-linear arithmetic (the
+          only source of counter-models), (4) native with product-monotonicity hints, (5) cvc5."""
     t0 = time.time()
     try:
         sk_goal = skolemize(goal)
     except z3.Z3Exception:
         sk_goal = goal
-    if hints:
-        try:
+    reason = ""
+    last_solver = None
+    budgets = [min(1500, timeout_ms), timeout_ms] if timeout_ms > 3000 else [timeout_ms]
+    for budget in budgets:
+        if hints:
             for ground in (True, False):
-                r = _stage_abstract(premises, sk_goal, max(1000, timeout_ms // 5), ground)
-                if r == z3.unsat:
-                    return Result("proved", "z3-%s/abstract-mul%s" % (z3.get_version_string(), "+g" if ground else ""),
-                                  time.time() - t0)
-        except z3.Z3Exception:
-            pass
-    s = _tactic_solver(timeout_ms)
-    for p in premises:
-        s.add(p)
-    s.add(z3.Not(sk_goal))
-    try:
-        r = s.check()
-    except z3.Z3Exception as exc:  # pragma: no cover
-        return Result("unknown", "z3", time.time() - t0, reason=f"z3 exception {exc}")
-    dt = time.time() - t0
-    if r == z3.unsat:
-        return Result("proved", "z3-%s" % z3.get_version_string(), dt)
-    if r == z3.sat:
-        m = s.model() if want_model else None
-        return Result("refuted", "z3-%s" % z3.get_version_string(), dt, model=m)
-    reason = s.reason_unknown()
-    if hints:
-        s2 = _tactic_solver(timeout_ms)
+                try:
+                    r = _stage_abstract(premises, sk_goal, budget, ground)
+                    if r == z3.unsat:
+                        return Result("proved", "z3-%s/abstract-mul%s" % (z3.get_version_string(), "+g" if ground else ""),
+                                      time.time() - t0)
+                except z3.Z3Exception:
+                    pass
+        s = _tactic_solver(budget)
         for p in premises:
-            s2.add(p)
-        for h in nl_hints(list(premises) + [sk_goal]):
-            s2.add(h)
-        s2.add(z3.Not(sk_goal))
-        r = s2.check()
+            s.add(p)
+        s.add(z3.Not(sk_goal))
+        last_solver = s
+        try:
+            r = s.check()
+        except z3.Z3Exception as exc:  # pragma: no cover
+            return Result("unknown", "z3", time.time() - t0, reason=f"z3 exception {exc}")
         if r == z3.unsat:
-            return Result("proved", "z3-%s/nl-hints" % z3.get_version_string(), time.time() - t0)
+            return Result("proved", "z3-%s" % z3.get_version_string(), time.time() - t0)
         if r == z3.sat:
-            return Result("refuted", "z3-%s/nl-hints" % z3.get_version_string(), time.time() - t0,
-                          model=s2.model() if want_model else None)
-    if use_cvc5:
-        r2 = _cvc5_cli(s, timeout_ms)
+            return Result("refuted", "z3-%s" % z3.get_version_string(), time.time() - t0,
+                          model=s.model() if want_model else None)
+        reason = s.reason_unknown()
+        if hints:
+            s2 = _tactic_solver(budget)
+            for p in premises:
+                s2.add(p)
+            for h in nl_hints(list(premises) + [sk_goal]):
+                s2.add(h)
+            s2.add(z3.Not(sk_goal))
+            r = s2.check()
+            if r == z3.unsat:
+                return Result("proved", "z3-%s/nl-hints" % z3.get_version_string(), time.time() - t0)
+            if r == z3.sat:
+                return Result("refuted", "z3-%s/nl-hints" % z3.get_version_string(), time.time() - t0,
+                              model=s2.model() if want_model else None)
+    if use_cvc5 and last_solver is not None:
+        r2 = _cvc5_cli(last_solver, timeout_ms)
         if r2 is not None:
-            r2.time_s += dt
+            r2.time_s = time.time() - t0
             return r2
     return Result("unknown", "z3", time.time() - t0, reason=reason)
 
